@@ -26,7 +26,7 @@ func replayEngine(t *testing.T, r *Replay) (bool, uint64, string, []string) {
 	if res.Harness != "" {
 		return false, 0, "harness: " + res.Harness, res.Trace
 	}
-	if v := findViolation(res, r.Check, r.Disc); v != nil {
+	if v := findViolation(res, r.Property, r.Check, r.Disc); v != nil {
 		return true, res.TraceHash, v.Detail, res.Trace
 	}
 	return false, res.TraceHash, "", res.Trace
